@@ -339,16 +339,19 @@ def run_case(case):
             return BackwardScheduler(end=from_us(case['pbound']), **kw)
         # a first calculation, then the calendars of some resources are edited: the observed calculation
         # must work with the calendars as they are NOW (resources are reused across calculations)
+        first = None
         if case.get('edit_calendars'):
+            first = make()
             try:
-                make().calc(wbs)
+                first.calc(wbs)
             except BaseException:  # noqa
                 pass
             for name, cal in case['edit_calendars']:
                 if name in supplied:
                     supplied[name].calendar = build_calendar(cal)
         before = snapshot(wbs, ext)
-        sched = make()
+        # the scheduler object of the first calculation is reused in half of the calendar-edit cases
+        sched = first if (first is not None and case.get('edit_same_scheduler')) else make()
         signal.signal(signal.SIGALRM, _alarm)
         signal.alarm(3 if BUDGET['timeouts'] >= 2 else 30)
         try:
